@@ -43,6 +43,9 @@ def run(rep, ctx, tier):
         if n < 1:
             # no zip: the proof list may be paired with the claims by position (bounds-checked indexing)
             n = R4.run_positional(rep, ctx, a, "R4a")
+        if n < 1:
+            # neither: two iterators advanced in lock-step by a `while let`
+            n = R4.run_lockstep(rep, ctx, a, "R4a")
         # the verdicts of the per-point checks are accumulated, not overwritten by the last one
         if key == "ipa.batch_check":
             # the batch verifier pins the number of rounds of every proof, like the single check does (F8)
